@@ -5,6 +5,8 @@
 //! The writer's only state is its fill level (0..=B, B observed at run time).  ALL (or, quick, the
 //! boundary-dense subset of) fill levels x a write alphabet (every integer type and every rendered
 //! length 1..=40, chars, strings around 0/45/B/2B, vectors, tuples of arity 2..8) x {flush, drop};
+//! every one of the 128 ASCII chars through `write_char` at every boundary-dense fill level and in short
+//! histories, and inside &str / String / Vec<String> / tuple values (`char_sweep`, `char_histories`);
 //! the same writes through the public trait method `Writable::write` (pending bytes also in the
 //! flush-per-write build); the writer going out of scope by unwinding (user code panics after the writes);
 //! sink deviations (partial acceptance, Interrupted) enumerated up to two per execution; every value of
@@ -137,7 +139,19 @@ enum WAct {
     /// &str / String of `len` bytes with separator bytes inside the pattern: `sep` 0 = LF, 1 = CR, 2 = SP,
     /// 3 = CR LF; `places` bit 0 = at the start, bit 1 = in the middle, bit 2 = at the end, bit 3 = every 17th byte
     Text { len: usize, salt: u8, sep: u8, places: u8, owned: bool },
+    /// the string of the ASCII chars lo..=hi in ascending order, as &str or (owned) String
+    Ascii { lo: u8, hi: u8, owned: bool },
+    /// Vec<String> of the 128 one-char strings, in ascending order
+    VecAscii,
+    /// the tuple (&str, String, &str) of the ASCII chars 0..=42, 43..=85 and 86..=127
+    TupAscii,
 }
+
+fn ascii_range(lo: u8, hi: u8) -> String {
+    (lo..=hi).map(|c| c as char).collect()
+}
+
+const TUP_ASCII: [(u8, u8); 3] = [(0, 42), (43, 85), (86, 127)];
 
 fn pattern(len: usize, salt: u8) -> String {
     // position-dependent letters: loss, duplication or reordering of a piece changes the text
@@ -217,6 +231,9 @@ impl WAct {
             WAct::Macro(2) => "x 18446744073709551615".to_string(),
             WAct::Macro(_) => "7\n8 9\n".to_string(),
             WAct::Text { len, salt, sep, places, .. } => text(*len, *salt, *sep, *places),
+            WAct::Ascii { lo, hi, .. } => ascii_range(*lo, *hi),
+            WAct::VecAscii => (0..128u8).map(|c| ascii_range(c, c)).collect::<Vec<_>>().join(" "),
+            WAct::TupAscii => TUP_ASCII.map(|(lo, hi)| ascii_range(lo, hi)).join(" "),
         }
     }
 
@@ -245,8 +262,13 @@ impl WAct {
                 _ => w.write(&T8),
             },
             WAct::Macro(_) => unreachable!("macro actions are applied by apply_macro"),
-            WAct::Text { owned: true, .. } => w.write(&self.expected()),
-            WAct::Text { .. } => w.write(&self.expected().as_str()),
+            WAct::Text { owned: true, .. } | WAct::Ascii { owned: true, .. } => w.write(&self.expected()),
+            WAct::Text { .. } | WAct::Ascii { .. } => w.write(&self.expected().as_str()),
+            WAct::VecAscii => w.write(&(0..128u8).map(|c| ascii_range(c, c)).collect::<Vec<String>>()),
+            WAct::TupAscii => {
+                let p = TUP_ASCII.map(|(lo, hi)| ascii_range(lo, hi));
+                w.write(&(p[0].as_str(), p[1].clone(), p[2].as_str()))
+            }
         }
     }
 }
@@ -280,8 +302,13 @@ impl WAct {
                 _ => W::write(&T8, w),
             },
             WAct::Macro(_) => unreachable!("macro actions are applied by apply_macro"),
-            WAct::Text { owned: true, .. } => W::write(&self.expected(), w),
-            WAct::Text { .. } => W::write(&self.expected().as_str(), w),
+            WAct::Text { owned: true, .. } | WAct::Ascii { owned: true, .. } => W::write(&self.expected(), w),
+            WAct::Text { .. } | WAct::Ascii { .. } => W::write(&self.expected().as_str(), w),
+            WAct::VecAscii => W::write(&(0..128u8).map(|c| ascii_range(c, c)).collect::<Vec<String>>(), w),
+            WAct::TupAscii => {
+                let p = TUP_ASCII.map(|(lo, hi)| ascii_range(lo, hi));
+                W::write(&(p[0].as_str(), p[1].clone(), p[2].as_str()), w)
+            }
         }
     }
 }
@@ -555,6 +582,30 @@ fn judge(c: &Case) -> Result<Exec, String> {
                     let back: String = r.read();
                     if back != pattern(*n, *s) {
                         return Err(format!("wrote a {}-byte word, the reader read back a different {}-byte word", n, back.len()));
+                    }
+                    true
+                }
+                // a char that the reader does not skip as white space comes back as itself; after a white-space
+                // char the reader finds nothing
+                WAct::Ch(c) => {
+                    if !c.is_ascii_whitespace() {
+                        let back: char = r.read();
+                        if back != *c as char {
+                            return Err(format!("wrote the char {:?}, the reader read back {:?}", *c as char, back));
+                        }
+                    }
+                    true
+                }
+                // strings of arbitrary ASCII chars: the reader returns their white-space separated words
+                a @ (WAct::Ascii { .. } | WAct::VecAscii | WAct::TupAscii) => {
+                    let text = a.expected();
+                    let words: Vec<&str> = text.split_ascii_whitespace().collect();
+                    let mut back: Vec<String> = vec![];
+                    while back.len() <= words.len() && !r.is_eof() {
+                        back.push(r.read());
+                    }
+                    if back != words {
+                        return Err(format!("wrote {:?}, the reader read back the words {:?}", text, back));
                     }
                     true
                 }
@@ -939,6 +990,46 @@ fn text_alphabet(b: usize) -> Vec<WAct> {
     v
 }
 
+/// The char alphabet of C09's domain ("ASCII strings, chars"): every one of the 128 ASCII chars through
+/// `write_char` (the five already in `alphabet` are not repeated), and the same chars inside values of the
+/// other supported types: each as a one-char &str, all of them in one &str / String, the control chars in
+/// one String, a Vec<String> of the 128 one-char strings, a tuple of three strings that together hold all.
+fn char_sweep() -> Vec<WAct> {
+    let mut v: Vec<WAct> = (0..128u8).filter(|c| !b"a\n \r\t".contains(c)).map(WAct::Ch).collect();
+    v.extend((0..128u8).map(|c| WAct::Ascii { lo: c, hi: c, owned: false }));
+    v.push(WAct::Ascii { lo: 0, hi: 127, owned: false });
+    v.push(WAct::Ascii { lo: 0, hi: 127, owned: true });
+    v.push(WAct::Ascii { lo: 0, hi: 31, owned: true });
+    v.push(WAct::VecAscii);
+    v.push(WAct::TupAscii);
+    v
+}
+
+/// Short histories around every ASCII char c: c first, c last, c between two other writes, c twice around a
+/// vector, c followed by another char; buffer empty, one byte in it, one byte free, full; flush or drop.
+fn build_char_histories(b: usize) -> Vec<Case> {
+    let (int, word, vec) = (WAct::Int(IntVal::I32(-12345)), WAct::Str(3, 1), WAct::VecI64(vec![1, -2, 3]));
+    let mut cases = vec![];
+    for c in 0..128u8 {
+        let ch = WAct::Ch(c);
+        let histories = [
+            vec![ch.clone(), int.clone()],
+            vec![word.clone(), ch.clone()],
+            vec![int.clone(), ch.clone(), word.clone()],
+            vec![ch.clone(), vec.clone(), ch.clone()],
+            vec![ch.clone(), WAct::Ch((c + 64) % 128)],
+        ];
+        for fill in [0, 1, b - 1, b] {
+            for h in &histories {
+                for flush in [true, false] {
+                    cases.push(Case::new(fill, h.clone(), flush, vec![]));
+                }
+            }
+        }
+    }
+    cases
+}
+
 fn fill_levels(b: usize, quick: bool) -> Vec<usize> {
     if !quick {
         return (0..=b).collect();
@@ -1200,7 +1291,10 @@ fn the_pass(quick: bool, with_rendering_thorough: bool) -> Result<PassOut, Strin
         return Err(format!("observed buffer size {b} is implausible"));
     }
     let acts = alphabet(b);
+    let sweep = char_sweep();
     let fills = fill_levels(b, quick);
+    // the boundary-dense fill levels of the quick tier (in BOTH tiers: see family 1t)
+    let derived_fills: std::collections::HashSet<usize> = fill_levels(b, true).into_iter().collect();
     let mut families = vec![];
 
     // family 1: one write at every fill level, flush or drop
@@ -1220,6 +1314,15 @@ fn the_pass(quick: bool, with_rendering_thorough: bool) -> Result<PassOut, Strin
                 cases.push(Case::new(f, vec![a.clone()], flush, vec![]));
             }
         }
+        // the char sweep: every ASCII char through write_char at every boundary-dense fill level, the
+        // strings / vectors / tuples holding these chars at the fill levels next to the two ends
+        if derived_fills.contains(&f) {
+            for a in sweep.iter().filter(|a| matches!(a, WAct::Ch(_)) || f <= 2 || f + 2 >= b) {
+                for flush in [true, false] {
+                    cases.push(Case::new(f, vec![a.clone()], flush, vec![]));
+                }
+            }
+        }
     }
     let n = cases.len();
     let single = run_family("single_write", &cases, b);
@@ -1230,7 +1333,6 @@ fn the_pass(quick: bool, with_rendering_thorough: bool) -> Result<PassOut, Strin
     // The two derived families run at the boundary-dense fill levels of the quick tier in BOTH tiers (what a
     // drop delivers depends on the fill level only through the bytes pending; thorough's 65 537 levels are
     // spent on family 1).
-    let derived_fills: std::collections::HashSet<usize> = fill_levels(b, true).into_iter().collect();
     let trait_variant = |c: &Case| -> Option<Case> {
         if c.flush || matches!(c.acts[0], WAct::Macro(_)) || !derived_fills.contains(&c.fill) {
             return None;
@@ -1282,6 +1384,11 @@ fn the_pass(quick: bool, with_rendering_thorough: bool) -> Result<PassOut, Strin
     }
     let n = cases.len();
     families.push(("two_writes", run_family("two_writes", &cases, b), n));
+
+    // family 2c: short histories around every ASCII char
+    let cases = build_char_histories(b);
+    let n = cases.len();
+    families.push(("char_histories", run_family("char_histories", &cases, b), n));
 
     // family 3: sink deviations, up to two per execution
     let mut plans: Vec<Vec<WStep>> = vec![];
@@ -1423,12 +1530,20 @@ fn main() {
     run.cov("executions_buffered_build", execs);
     run.cov("executions_debug_build", dbg_execs);
     run.cov("integers_rendered", p.rendered);
-    run.cov("write_alphabet_size", alphabet(p.b).len() as u64);
+    run.cov("write_alphabet_size", (alphabet(p.b).len() + char_sweep().len()) as u64);
+    // non-vacuity of the char alphabet: MEASURED from the two lists the enumeration is built from
+    let chars_written: std::collections::BTreeSet<u8> = alphabet(p.b).iter().chain(char_sweep().iter()).filter_map(|a| if let WAct::Ch(c) = a { Some(*c) } else { None }).collect();
+    let chars_in_histories: std::collections::BTreeSet<u8> = build_char_histories(p.b).iter().flat_map(|c| c.acts.clone()).filter_map(|a| if let WAct::Ch(c) = a { Some(c) } else { None }).collect();
+    run.cov("distinct_ascii_chars_through_write_char", chars_written.len() as u64);
+    run.cov("values_of_other_types_holding_arbitrary_ascii_chars", char_sweep().iter().filter(|a| !matches!(a, WAct::Ch(_))).count() as u64);
+    if chars_written.len() != 128 || chars_in_histories.len() != 128 || chars_written.iter().any(|c| !c.is_ascii()) {
+        run.machinery_failure("the char alphabet is not the 128 ASCII chars");
+    }
     run.cov("strings_with_separators_in_alphabet", text_alphabet(p.b).len() as u64);
     run.cov("families", Value::Array(fam_json));
     run.cov("debug_build_executions_where_the_final_drop_delivered_bytes", json!(dbg_drop_delivered.iter().cloned().collect::<std::collections::BTreeMap<String, u64>>()));
     run.cov("exhaustive", !quick);
-    run.cov("rule", "state = fill level of the writer's buffer when a write starts (reached by one verbatim string); transitions = executions (fill, write action(s), flush|drop, sink plan) in the buffered build plus the same enumeration in the debug-assertions build; families: single_write (fill x alphabet x {flush, drop}), trait_calls (the same writes through the public trait method Writable::write(&v, &mut writer), which in the flush-per-write build leaves the bytes pending, then drop), drop_by_unwinding (for every (fill, action) of both call styles whose ordinary drop delivered the right bytes: user code panics after the writes while the writer is alive, so the writer is dropped by unwinding; the sink must then hold exactly the bytes written), two_writes (also: every short string of the alphabet with LF / CR LF inside it as the SECOND write, after a first write that leaves a started line, a finished line or nothing), sink_faults, live_writers (two and three writers ALIVE AT ONCE on one thread over separate sinks, fill levels 0 / 5 / B-2: every history of <= 3 writes from a reduced alphabet (integer, LF, word, two-line string, vector, string of B+1 bytes) distributed over the writers in every way, ended in both / all six orders by drop alone and by flush + drop; and one or two writers live here while ANOTHER THREAD creates, uses and drops a writer over its own sink at every point of every history of <= 2 writes; every sink must hold exactly the bytes written to its own writer); the write alphabet contains, besides one-word strings, &str / String values of 1, 2, 3, 46, B-1, B+1 and 2B+1 bytes with LF, CR, SP or CR LF at the start, in the middle, at the end, at all three and at every 17th byte (strings_with_separators_in_alphabet), and the chars LF, SP, CR, TAB; distinct_nontrivial = executions in which the sink received more than one write (a flush happened inside the history); thorough covers ALL B+1 fill levels (trait_calls and drop_by_unwinding: the quick set), quick [0,64] ∪ [B-64,B] ∪ every 1021st");
+    run.cov("rule", "state = fill level of the writer's buffer when a write starts (reached by one verbatim string); transitions = executions (fill, write action(s), flush|drop, sink plan) in the buffered build plus the same enumeration in the debug-assertions build; families: single_write (fill x alphabet x {flush, drop}), trait_calls (the same writes through the public trait method Writable::write(&v, &mut writer), which in the flush-per-write build leaves the bytes pending, then drop), drop_by_unwinding (for every (fill, action) of both call styles whose ordinary drop delivered the right bytes: user code panics after the writes while the writer is alive, so the writer is dropped by unwinding; the sink must then hold exactly the bytes written), two_writes (also: every short string of the alphabet with LF / CR LF inside it as the SECOND write, after a first write that leaves a started line, a finished line or nothing), sink_faults, live_writers (two and three writers ALIVE AT ONCE on one thread over separate sinks, fill levels 0 / 5 / B-2: every history of <= 3 writes from a reduced alphabet (integer, LF, word, two-line string, vector, string of B+1 bytes) distributed over the writers in every way, ended in both / all six orders by drop alone and by flush + drop; and one or two writers live here while ANOTHER THREAD creates, uses and drops a writer over its own sink at every point of every history of <= 2 writes; every sink must hold exactly the bytes written to its own writer); the write alphabet contains, besides one-word strings, &str / String values of 1, 2, 3, 46, B-1, B+1 and 2B+1 bytes with LF, CR, SP or CR LF at the start, in the middle, at the end, at all three and at every 17th byte (strings_with_separators_in_alphabet), and the chars LF, SP, CR, TAB; the char sweep: EVERY one of the 128 ASCII chars (control chars, NUL and DEL included) through write_char at every boundary-dense fill level x {flush, drop} (and through the derived families trait_calls / drop_by_unwinding), each of them as a one-char &str, all of them in one &str / String, the 32 control chars in one String, a Vec<String> of the 128 one-char strings and a tuple (&str, String, &str) holding all 128, at the fill levels within 2 of the two ends; char_histories: for every ASCII char c the histories [c, int], [word, c], [int, c, word], [c, vector, c], [c, c+64 mod 128] at fill 0 / 1 / B-1 / B, flush or drop; a single char is read back with read::<char>() unless the reader skips it as white space (then the reader must find nothing), the strings of arbitrary chars are read back as their white-space separated words; all of it, like every other family, in BOTH build profiles; distinct_nontrivial = executions in which the sink received more than one write (a flush happened inside the history); thorough covers ALL B+1 fill levels (trait_calls and drop_by_unwinding: the quick set), quick [0,64] ∪ [B-64,B] ∪ every 1021st");
     let a = alphabet(p.b);
     for (i, act) in a.iter().enumerate().step_by((a.len() / 5).max(1)) {
         let c = Case::new(p.b - (i % 45), vec![act.clone()], i % 2 == 0, vec![]);
@@ -1436,6 +1551,7 @@ fn main() {
     }
     run.assume("'when the writer is dropped' (C09) is read as every drop, including the drop performed by unwinding when user code panics after its writes returned; the harness's user panic happens outside any writer call, and only for histories whose ordinary drop delivered the right bytes in the same build");
     run.assume("live_writers histories are enumerated on the worker threads of the pool (which have run other histories before); a history that fails there is re-run on a fresh thread before it is recorded, and replays run on a fresh thread");
+    run.assume("the chars of C09's domain ('ASCII strings, chars') are the 128 ASCII chars U+0000..U+007F, control chars included (each is delivered as its one byte and, unless white space, read back by read::<char>()); non-ASCII chars are outside the domain (write_char keeps only the low byte of the code point) and are not written; Writer has no Writable impl for char, so inside vectors / tuples chars travel as strings");
     run.assume("sinks never return Ok(0) for a non-empty buffer (std's write_all treats that as an error) and report no error other than Interrupted");
     if !run.has_violations() && (near < 1000 || flushers < 1000) {
         run.machinery_failure("too few writes started near the buffer boundary / triggered a flush");
